@@ -3,10 +3,12 @@ use crate::fw::Monitor;
 
 pub mod alnspec;
 pub mod c01;
+pub mod c02;
 
 pub fn get(id: &str) -> Option<Box<dyn Monitor>> {
     match id {
         "C01" => Some(Box::new(c01::C01)),
+        "C02" => Some(Box::new(c02::C02)),
         _ => None,
     }
 }
